@@ -13,7 +13,7 @@ import tempfile
 GAMMA = {"neg": -0.1, "zero": 0.0, "mid": 0.5, "one": 1.0, "above": 1.1, "int_zero": 0, "int_one": 1}
 EPS = {"neg": -1.0, "zero": 0.0, "tiny": 1e-12, "small": 1e-3, "half": 0.5, "two": 2.0, "twenty": 20.0,
        "twohundred": 200.0, "million": 1e6, "int_one": 1, "int_hundred": 100}
-PLEV = {"neg": -0.1, "zero": 0.0, "mid": 0.25, "one": 1.0, "above": 1.5}
+PLEV = {"neg": -0.1, "zero": 0.0, "tenth": 0.1, "mid": 0.25, "one": 1.0, "above": 1.5}
 
 
 def classes(kind):
@@ -52,7 +52,7 @@ def run_case(case):
     PCls, PCfg, pkw = problem_parts(c)
     ckdir = tempfile.mkdtemp(prefix="verif-cfg-")
     out = {"kind": kind, "route": route, "c": c, "order": case["order"], "gid": case["gid"],
-           "construct": "ok", "solve": "skipped", "dtype": "none", "digest": "", "msg": ""}
+           "construct": "ok", "solve": "skipped", "dtype": "none", "digest": "", "msg": "", "bok": True}
     solver = None
     try:
         kw = solver_kwargs(kind, c, os.path.join(ckdir, "ck"))
@@ -63,6 +63,20 @@ def run_case(case):
             pcfg = PCfg(**pkw)
             scfg = cls.Config(problem=pcfg, **kw)
             solver = cls(config=scfg)
+        elif route == "reuse":
+            # ONE configuration object serves two solvers and is edited in place in between (a parameter sweep):
+            # the first solver must keep the values it was built with, the second must see the edited ones
+            pcfg = PCfg(**pkw)
+            scfg = cls.Config(problem=pcfg, **kw)
+            solver = cls(config=scfg)
+            scfg.epsilon = 5.0e5
+            if kind != "RVI":
+                scfg.gamma = 0.25 if kw["gamma"] != 0.25 else 0.75
+            if c["problem"] == "forest":
+                scfg.problem.S = pkw["S"] + 3
+            second = cls(config=scfg)
+            out["bok"] = bool(second.epsilon == 5.0e5 and
+                              (c["problem"] != "forest" or second.problem.n_states == pkw["S"] + 3))
         elif route == "yaml":
             # write the configuration file through a checkpoint-enabled solver, then reload it
             kw2 = dict(kw)
